@@ -339,6 +339,8 @@ SPEC = TreeSpec(
         "nullable markers or values - or the top-level tagged section repeated 2..1200 times with the count patched. Oracle: decode returns or raises SerialError/ValueError/OverflowError; Python calls "
         "(sys.setprofile) <= 400+32*len and read calls <= 16+8*len (counted, the profiler aborts the decode beyond the "
         "bound); half of the inputs are served by a real io.BytesIO subclass that also bounds the bytes handed out through read/read1/getvalue/getbuffer/readinto to 64 + 4*len; for cases with a hostile length, peak traced allocation (tracemalloc) <= 1 MiB + 1 KiB*len; bytes consumed <= len; a returned entity must encode, and decode->encode of that must be idempotent. "
+        "Scaling stage: for each array/bytes/unknown-tag shape a VALID message is decoded at 4000 and 32000 items; CPU time of the decoding thread must stay proportional "
+        "(violation only if the ratio exceeds 24 AND the larger decode needs more than 0.25 CPU-seconds, minimum of three runs, measured twice). "
         "Non-trivial = input differs from the valid encoding it was derived from (or is random) and the decoder got past "
         "the first read (>=2 reads); distinct by hash of (class, tree, edits)."
     ),
@@ -351,15 +353,122 @@ SPEC = TreeSpec(
     thorough_examples=400,
     tagged_boost=3,
     assumptions=(
-        "cost is measured in Python-level call events, stream read calls and (for hostile-length cases) tracemalloc peak, not wall clock",
+        "cost is measured in Python-level call events, stream read calls and (for hostile-length cases) tracemalloc peak, not wall clock; the scaling stage compares thread CPU time at two input sizes (ratio and floor, see rule)",
         "negative read sizes are served like io.BytesIO does (read to end)",
     ),
     floors={"nontrivial": 0.3},
 )
 
 
+# --------------------------------------------------------------------------- scaling stage
+# "decoding finishes in time proportional to the input size": the call/read/byte counters above cannot see work done inside
+# one C-level operation (building a result by repeated concatenation, re-scanning a buffer).  For a few shapes a VALID
+# message is decoded at size n and 8n and the CPU time of the decoding thread (time.thread_time, not wall clock) compared:
+# proportional cost gives a ratio near 8, quadratic cost one near 64.  A violation needs BOTH a ratio above 24 (three
+# times the proportional one) and more than 0.25 CPU-seconds for the larger input, in the minimum of three runs and again
+# in a second round of three - scheduling noise and a busy machine do not enter CPU time, and cannot produce both.
+SCALE_SMALL, SCALE_FACTOR = 4000, 8
+SCALE_RATIO, SCALE_FLOOR_S = 24.0, 0.25
+
+
+def scaling_shapes() -> list[tuple[str, str, str]]:
+    """-> [(shape label, class path, field name or '')]: first class (path order) offering each shape at top level"""
+    from .. import describe as D
+
+    want = {}
+    for cls in D.all_classes():
+        cd = D.describe(cls)
+        for f in cd.fields:
+            if f.tag is not None:
+                continue
+            if f.array and f.kind in ("int32", "string", "struct", "int64", "uuid"):
+                key = f"array:{f.kind}:{'compact' if cd.flexible else 'legacy'}"
+            elif not f.array and f.kind in ("bytes", "records"):
+                key = f"bytes:{'compact' if cd.flexible else 'legacy'}"
+            else:
+                continue
+            want.setdefault(key, (key, cd.path, f.name))
+        if cd.flexible and not cd.is_request_header:
+            want.setdefault("unknown-tags", ("unknown-tags", cd.path, ""))
+    return [want[k] for k in sorted(want)]
+
+
+def _scaling_input(cd, fname: str, shape: str, n: int) -> bytes:
+    from ..refcodec import UNKNOWN, ref_encode, zero_tree
+
+    tree = zero_tree(cd)
+    if shape == "unknown-tags":
+        base = max({f.tag for f in cd.tagged_fields} | {0}) + 1
+        tree[UNKNOWN] = [(base + i, b"x") for i in range(n)]
+    else:
+        f = next(x for x in cd.fields if x.name == fname)
+        if shape.startswith("bytes"):
+            tree[fname] = b"\xa5" * (n * 64)
+        elif f.kind == "struct":
+            tree[fname] = [zero_tree(f.struct) for _ in range(n)]
+        elif f.kind == "string":
+            tree[fname] = [b"ab"] * n
+        elif f.kind == "uuid":
+            tree[fname] = [bytes([1 + i % 200]) * 16 for i in range(n)]
+        else:
+            tree[fname] = [i % 1000 for i in range(n)]
+    return ref_encode(cd, tree)
+
+
+def _cpu_decode(cls, data: bytes, rounds: int = 3) -> float:
+    import time
+
+    reader = K.entity_reader(cls)
+    best = None
+    for _ in range(rounds):
+        buf = io.BytesIO(data)
+        t0 = time.thread_time()
+        reader(buf)
+        dt = time.thread_time() - t0
+        if buf.tell() != len(data):
+            raise AssertionError("harness: valid scaling input not consumed exactly")
+        best = dt if best is None else min(best, dt)
+    return best
+
+
+def check_scaling(shape: str, path: str, fname: str) -> tuple[list, dict]:
+    from .. import describe as D
+
+    cd = D.describe(D.resolve(path))
+    small = _scaling_input(cd, fname, shape, SCALE_SMALL)
+    big = _scaling_input(cd, fname, shape, SCALE_SMALL * SCALE_FACTOR)
+    info = {"shape": shape, "class": path, "small_bytes": len(small), "big_bytes": len(big)}
+    try:
+        for attempt in range(2):
+            t_small = max(_cpu_decode(cd.cls, small), 1e-5)
+            t_big = _cpu_decode(cd.cls, big)
+            info.update(cpu_small=round(t_small, 5), cpu_big=round(t_big, 5), ratio=round(t_big / t_small, 1))
+            if not (t_big / t_small > SCALE_RATIO and t_big > SCALE_FLOOR_S):
+                return [], info
+    except ALLOWED as e:
+        return [(f"scaling:valid-input-rejected:{K.exc_signature(e)}", f"{path}: a valid {shape} message was rejected: {e!r:.200}")], info
+    return [(f"scaling:superlinear:{shape.split(':')[0]}",
+             f"{path} ({shape}): decoding {len(big)} valid bytes took {t_big:.2f} CPU-s, {len(small)} bytes {t_small:.4f} CPU-s - "
+             f"{t_big / t_small:.0f} times the cost for {len(big) / len(small):.1f} times the input (minimum of 3 runs, measured twice)")], info
+
+
+def _scaling_worker(task):
+    return check_scaling(*task)
+
+
 def run(ctx: Ctx) -> Report:
     rep = run_tree_property(ctx, __name__, SPEC)
+    from ..engine import Failure, case_hash, pool_map
+
+    shapes = scaling_shapes()
+    rows = []
+    for (shape, path, fname), (fails, info) in zip(shapes, pool_map(_scaling_worker, shapes)):
+        rep.evaluations += 2
+        rep.nontrivial.add(case_hash(("scaling", shape)))
+        rows.append(info)
+        for sig, msg in fails:
+            rep.add_failure(Failure(sig, msg, {"scaling": [shape, path, fname]}, 1))
+    rep.extra["scaling"] = rows
     c = rep.extra.get("counters", {})
     if c.get("accepted", 0) < 20 or sum(v for k, v in c.items() if k.startswith("rejected:")) < 20:
         from ..engine import HarnessError
@@ -375,6 +484,8 @@ def run(ctx: Ctx) -> Report:
 def replay(case):
     from .. import describe as D
 
+    if "scaling" in case:
+        return check_scaling(*case["scaling"])[0]
     if "input" in case:
         cd = D.describe(D.resolve(case["class"]))
         return check_bytes(cd, bytes.fromhex(case["input"]), measure_mem=True)[0]
